@@ -31,6 +31,16 @@ fn main() {
             let r = oracles::search(oracle, seed, budget, &skip);
             println!("{}", r);
         }
+        "batch" => {
+            // one JSON args object per stdin line -> one verdict per line
+            use std::io::BufRead;
+            for line in std::io::stdin().lock().lines() {
+                let line = line.unwrap();
+                if line.trim().is_empty() { continue; }
+                let v: Value = serde_json::from_str(&line).expect("json args");
+                println!("{}", oracles::call(oracle, &v));
+            }
+        }
         "list" => {
             println!("{}", json!(oracles::NAMES));
         }
